@@ -59,6 +59,19 @@ def classify(exprs, p):
 
         if all(in_fp(k) for k in p.keys):
             return 'constants-inside-fp-constant'
+
+        def is_fp(k):
+            if isinstance(k, int):
+                n = m[k][0] if k in m else None
+            else:
+                n = k
+            return n is not None and not n.is_leaf() and n.has_ident() \
+                and n.get_ident() == 'fp'
+
+        if p.mutator == 'Constants' and all(is_fp(k) for k in p.keys):
+            # the other half of the same defect: a damaged / simplified
+            # (fp ...) term is put back to a default constant
+            return 'constants-at-fp-term'
     if p.mutator == 'EliminateVariable' and p.kind.startswith('ddmin'):
         # a ddmin group merges the first proposal of several equalities into
         # one simultaneous substitution
@@ -116,7 +129,8 @@ def run_unit(unit):
         # mutator: the graph must also be acyclic when the substituting
         # mutators' edges are removed instead of ReplaceByVariable's
         clean = s.cycles_without(SUBSTITUTING, also=(
-            'constants-inside-fp-constant', 'ev-ddmin-group-simultaneous'))
+            'constants-inside-fp-constant', 'constants-at-fp-term',
+            'ev-ddmin-group-simultaneous'))
     if not clean:
         # every cycle of the explored graph runs through an edge that only
         # exists because of a known finding
@@ -157,11 +171,11 @@ def run_unit(unit):
 def plan(tier, seed=0):
     units = []
     depth = 3 if tier == 'thorough' else 2
-    cap = 1200 if tier == 'thorough' else 500
+    cap = 600 if tier == 'thorough' else 500
     for name, text in seeds.seeds(tier, seed):
         generated = '-gen' in name or '-not' in name
         units.append((name, text, 'depth', 'inc', depth,
-                      cap * (2 if tier == 'thorough' else 4)))
+                      2000))
         if tier == 'thorough' or not generated or name.endswith('0'):
             units.append((name, text, 'closure', 'inc', None, cap))
         if tier == 'thorough' or name.endswith('0') or '-' not in name:
